@@ -115,8 +115,8 @@ Iterate(x, pfx, start, hs, skip, rev, kind, at) ==
   Read([op |-> "iter", x |-> x, pfx |-> pfx, start |-> start, hs |-> hs, skip |-> skip, rev |-> rev, kind |-> kind, at |-> at,
         visited |-> WithVals(idx[x], IterKeys(idx[x], pfx, start, hs, skip, rev, kind, at)),
         err |-> IterErr(idx[x], pfx, start, hs, skip, rev, kind, at)])
-First(x, pfx) == Read([op |-> "first", x |-> x, pfx |-> pfx, k |-> FirstOf(idx[x], pfx)])
-Last(x, pfx)  == Read([op |-> "last", x |-> x, pfx |-> pfx, k |-> LastOf(idx[x], pfx)])
+FirstItem(x, pfx) == Read([op |-> "first", x |-> x, pfx |-> pfx, k |-> FirstOf(idx[x], pfx)])
+LastItem(x, pfx)  == Read([op |-> "last", x |-> x, pfx |-> pfx, k |-> LastOf(idx[x], pfx)])
 Count(x) == Read([op |-> "count", x |-> x, n |-> Cardinality(Present(idx[x]))])
 CountFrom(x, k) == Read([op |-> "countfrom", x |-> x, k |-> k, n |-> CountFromOf(idx[x], k)])
 
@@ -146,13 +146,13 @@ IterKinds == {<<"none", 0>>, <<"stop", 1>>, <<"stop", 2>>, <<"err", 1>>}
 KeyLists(x) == {<<a>> : a \in KeysOf(x)} \cup {<<a, b>> : a \in KeysOf(x), b \in KeysOf(x)}
 MaxField == 3          \* bound on counters (keeps the state space finite)
 
-IndexWrites == \E x \in Idx, k \in KeysOf(x) : \/ \E v \in Vals : Put(x, k, v) \/ BPut(x, k, v)
+IndexWrites == \E x \in Idx : \E k \in KeysOf(x) : \/ \E v \in Vals : Put(x, k, v) \/ BPut(x, k, v)
                                                \/ Del(x, k) \/ BDel(x, k)
 IndexReads ==
   \E x \in Idx :
      \/ \E k \in KeysOf(x) : Get(x, k) \/ Has(x, k) \/ CountFrom(x, k)
      \/ \E ks \in KeyLists(x) : HasMulti(x, ks) \/ Fill(x, ks)
-     \/ \E pfx \in PfxOf(x) : First(x, pfx) \/ Last(x, pfx)
+     \/ \E pfx \in PfxOf(x) : FirstItem(x, pfx) \/ LastItem(x, pfx)
      \/ Count(x)
      \/ \E pfx \in PfxOf(x), skip \in BOOLEAN, rev \in BOOLEAN, ka \in IterKinds :
            \/ Iterate(x, pfx, <<>>, FALSE, skip, rev, ka[1], ka[2])
@@ -204,12 +204,12 @@ IterContractFor(m, pfx, start, hs, skip, rev, kind, at) ==
      /\ (IterErr(m, pfx, start, hs, skip, rev, kind, at) <=> (kind = "err" /\ Len(v) = at))
 
 IterContract ==
-  \A x \in Idx, pfx \in PfxOf(x), skip \in BOOLEAN, rev \in BOOLEAN, ka \in IterKinds :
+  \A x \in Idx : \A pfx \in PfxOf(x), skip \in BOOLEAN, rev \in BOOLEAN, ka \in IterKinds :
      /\ IterContractFor(idx[x], pfx, <<>>, FALSE, skip, rev, ka[1], ka[2])
      /\ \A start \in KeysOf(x) : IterContractFor(idx[x], pfx, start, TRUE, skip, rev, ka[1], ka[2])
 
 FirstLastContract ==
-  \A x \in Idx, pfx \in PfxOf(x) :
+  \A x \in Idx : \A pfx \in PfxOf(x) :
      LET M == Matching(idx[x], pfx)  f == FirstOf(idx[x], pfx)  l == LastOf(idx[x], pfx)
      IN IF M = {} THEN f = NoKey /\ l = NoKey
         ELSE f \in M /\ l \in M /\ \A k \in M : LexLeq(f, k) /\ LexLeq(k, l)
